@@ -283,12 +283,27 @@ package patchvalidator
 //@   pure
 //@   ensures [iff] (err == nil) == pointerOK(pointer)
 
+// the reference tokens of a pointer as the patch library reads them (escapes resolved, numeric tokens in
+// one spelling): a function of the pointer text; that it matches the library's reading is exercised by the
+// bounded runs (c11_apply, c19_fuzz), not proved
+//@ func pointerTokens(pointer) (tokens)
+//@   pure
+//@   modifies nothing
+//@   ensures [own] tokens == nil || fresh(tokens)
+//
+// proper prefix on token lists: shorter, and equal token by token
+//@ func isProperPrefix(prefix, tokens) (r)
+//@   pure
+//@   ensures [iff] r == (len(prefix) < len(tokens) && (forall i int :: 0 <= i && i < len(prefix) ==> tokens[i] == prefix[i]))
+//@   loop 0 invariant [same] forall i int :: 0 <= i && i < $k ==> tokens[i] == prefix[i]
+
 // what the validator demands of one RFC 6902 operation: a string `path` that is acceptable, and,
-// when a non-null `from` member is present, a string `from` that is acceptable as well
+// when a non-null `from` member is present, a string `from` that is acceptable as well and does not
+// name a proper ancestor of `path` (copying or moving a location into its own child builds a cycle)
 //@ spec func opPointersOK(op map[string]*json.RawMessage) bool =
 //@     has(op, "path") && op["path"] != nil && jsonDecodeErr(string(deref(op["path"])), string) == nil && pointerOK(jsonDecode(string(deref(op["path"])), string)) &&
 //@     (has(op, "from") && op["from"] != nil ==> jsonDecodeErr(string(deref(op["from"])), string) == nil && pointerOK(jsonDecode(string(deref(op["from"])), string)) &&
-//@        !hasPrefix(jsonDecode(string(deref(op["path"])), string), jsonDecode(string(deref(op["from"])), string) + "/"))
+//@        !isProperPrefix(pointerTokens(jsonDecode(string(deref(op["from"])), string)), pointerTokens(jsonDecode(string(deref(op["path"])), string))))
 //
 //@ func validateJSONPatches(patches) (err)
 //@   pure
